@@ -34,7 +34,8 @@ TAG_RE = re.compile(r"\{%.*?%\}|\{#.*?#\}|\{\{.*?\}\}|<!--.*?-->", re.S)
 def conc_block(blk, path, findent=0):
     """findent: the whole fenced block (fences and content) is written 0-3 spaces to the right, which CommonMark removes again"""
     first, cont = PATHS[path]
-    info = {"none": "", "lang": "python", "lang+extra": "python {.numberLines}"}[blk["info"]]
+    # the rest of an info string is free text: a backtick fence's may hold tildes, a tilde fence's may hold tildes and backticks
+    info = {"none": "", "lang": "python", "lang+extra": "python {.numberLines} ~/x" + (" `y`" if blk["fc"] == "~" else "")}[blk["info"]]
     lines = []
     if blk["fl"] == 0:
         body = ["    " + CONC[k] if CONC[k] else "" for k in blk["lines"]]
